@@ -7,6 +7,8 @@ import (
 	"go/types"
 	"strings"
 
+	"golang.org/x/tools/go/ssa"
+
 	"cadcheck/core"
 )
 
@@ -18,15 +20,145 @@ func init() {
 
 func c19(r *core.Run) {
 	r.Explanation = "Decided clause (narrow): constructor ownership of normalisation — StringValue and CharacterValue struct literals occur only in the constructors NewUnmeteredStringValue / NewUnmeteredCharacterValue (which apply norm.NFC) and the deprecated *_Unsafe constructors, " +
-		"and the unsafe constructors have no caller in shipped code; every other producer therefore yields NFC-normalised strings."
-	r.NotDecided = "grapheme-cluster semantics of every string operation (length, slicing, indexing, comparison)."
+		"and the unsafe constructors have no caller in shipped code; every other producer therefore yields NFC-normalised strings; " +
+		"(R2) the cached cluster count StringValue.length is assigned only by (*StringValue).Length, which counts clusters by iteration (counts are not additive across a concat seam); " +
+		"(R3) in the substring search indexOf every path from the boundary seek to the next loop iteration restores the grapheme iterator from its backup."
+	r.NotDecided = "grapheme-cluster semantics of every string operation (length, slicing, indexing, comparison) beyond these three clauses."
 	stringNormalisation(r, "R1.normalised")
 	r.Floor("R1.normalised", 4)
+
+	// R2 the cached cluster count is produced by counting clusters: StringValue.length is assigned only by (*StringValue).Length
+	// (which iterates the grapheme clusters); cluster counts are not additive across a concat seam, nor preserved by slicing
+	fieldStoreOwners(r, "R2.lengthcache", "interpreter", "StringValue", "length", map[string]string{
+		"interpreter.(StringValue).Length": "counts the grapheme clusters by iteration",
+	})
+	r.Floor("R2.lengthcache", 1)
+
+	// R3 the substring search restores the grapheme iterator: in indexOf, every path from the boundary seek (which advances the
+	// iterator) to the next loop iteration passes the assignment that restores StringValue.graphemes from the backup
+	if fn := mustFn(r, "R3.restore", "interpreter", "StringValue", "indexOf"); fn != nil {
+		var seeks []ssa.Instruction
+		for _, c := range core.Calls(fn, false) {
+			if o := core.Callee(c); o != nil && o.Name() == "seekGraphemeBoundaryStartPrepared" {
+				seeks = append(seeks, c)
+			}
+		}
+		isRestore := func(in ssa.Instruction) bool {
+			st, ok := in.(*ssa.Store)
+			if !ok {
+				return false
+			}
+			fa, ok := st.Addr.(*ssa.FieldAddr)
+			if !ok {
+				return false
+			}
+			tn, f := structFieldOf(fa)
+			return tn == "StringValue" && f == "graphemes"
+		}
+		if len(seeks) == 0 {
+			r.Undecided("R3.restore", core.SSAKey(fn), "the boundary seek does not resolve")
+		}
+		for _, s := range seeks {
+			bad := token.NoPos
+			ok := true
+			// walk forward from the seek; stop at restores; reaching the source of a back edge is a violation
+			seen := map[*ssa.BasicBlock]bool{}
+			var walk func(b *ssa.BasicBlock, from int)
+			walk = func(b *ssa.BasicBlock, from int) {
+				for i := from; i < len(b.Instrs); i++ {
+					if isRestore(b.Instrs[i]) {
+						return
+					}
+				}
+				for _, nx := range b.Succs {
+					if nx.Dominates(b) {
+						ok = false
+						bad = b.Instrs[len(b.Instrs)-1].Pos()
+						continue
+					}
+					if !seen[nx] {
+						seen[nx] = true
+						walk(nx, 0)
+					}
+				}
+			}
+			idx := 0
+			for i, in := range s.Block().Instrs {
+				if in == s {
+					idx = i + 1
+				}
+			}
+			walk(s.Block(), idx)
+			r.Check(ok, "R3.restore", core.SSAKey(fn)+": iterator restored before the next candidate", posOr(bad, s.Pos()), "every path from the boundary seek to the next iteration restores StringValue.graphemes",
+				"the search loop can continue with the grapheme iterator advanced past the rejected candidate: later matches get a wrong character index or are missed")
+		}
+	}
+	r.Floor("R3.restore", 1)
+}
+
+func structFieldOf(fa *ssa.FieldAddr) (string, string) {
+	pt, ok := fa.X.Type().Underlying().(*types.Pointer)
+	if !ok {
+		return "", ""
+	}
+	_, tn := core.TypeName(pt.Elem())
+	st, ok := pt.Elem().Underlying().(*types.Struct)
+	if !ok {
+		return "", ""
+	}
+	return tn, st.Field(fa.Field).Name()
+}
+
+// fieldStoreOwners: assignments to the named struct field (outside composite literals) occur only in the allowed functions.
+func fieldStoreOwners(r *core.Run, rule, rel, typeName, field string, allowed map[string]string) {
+	w := r.W
+	for _, fn := range w.SrcFuncs() {
+		if fn.Pkg == nil || !w.InScope(fn.Pkg.Pkg.Path()) {
+			continue
+		}
+		top := fn
+		for top.Parent() != nil {
+			top = top.Parent()
+		}
+		for _, b := range fn.Blocks {
+			for _, in := range b.Instrs {
+				st, ok := in.(*ssa.Store)
+				if !ok {
+					continue
+				}
+				fa, ok := st.Addr.(*ssa.FieldAddr)
+				if !ok {
+					continue
+				}
+				tn, f := structFieldOf(fa)
+				if tn != typeName || f != field {
+					continue
+				}
+				if pt, ok := fa.X.Type().Underlying().(*types.Pointer); ok {
+					if p, _ := core.TypeName(pt.Elem()); p != mod+"/"+rel {
+						continue
+					}
+				}
+				// stores into a fresh composite literal (the constructors) are initialisation, not assignment
+				if al, isAlloc := fa.X.(*ssa.Alloc); isAlloc && al.Comment == "complit" {
+					r.OK(rule, core.SSAKey(top)+": "+typeName+"{"+field+": …}", in.Pos(), "initialisation in a constructor literal")
+					continue
+				}
+				key := core.SSAKey(top) + ": " + typeName + "." + field + " = …"
+				if why, ok := allowed[core.SSAKey(top)]; ok {
+					r.OK(rule, key, in.Pos(), "reviewed writer: "+why)
+				} else {
+					r.Bad(rule, key, in.Pos(), "the field is assigned outside its reviewed writers: a cached value is set without being computed from the string")
+				}
+			}
+		}
+	}
 }
 
 func c20(r *core.Run) {
 	r.Explanation = "Decided clause (narrow): atree error discipline of the container values — no error returned by an atree call in interpreter's array, dictionary, composite and storage-map code is dropped or overwritten before being tested; " +
-		"each reaches a panic (as ExternalError), a return or a named handler (e.g. the index-out-of-bounds conversion)."
+		"each reaches a panic (as ExternalError), a return or a named handler (e.g. the index-out-of-bounds conversion); " +
+		"(R2) every returning path of ArrayValue.Slice has created the atree range iterator (the upper-bound check); (R3) in the container Transfer methods atree's CopyNonRefSimple is unreachable when neither IsWithinSingleSlab() nor CanCopyNonRefSimple() holds."
 	r.NotDecided = "model equivalence of arrays and dictionaries over operation sequences; slab thresholds; persistence."
 	w := r.W
 	isAtree := func(o *types.Func) bool {
@@ -48,6 +180,79 @@ func c20(r *core.Run) {
 		}
 	}
 	r.Floor("R1.atreeerr", 80)
+
+	// R2 slice bounds: every returning path of ArrayValue.Slice has created the atree range iterator, which is the only
+	// check of the upper bound (its errors become ArraySliceIndicesError); a shortcut before it accepts out-of-range bounds
+	if fn := mustFn(r, "R2.slicebounds", "interpreter", "ArrayValue", "Slice"); fn != nil {
+		isRange := func(in ssa.Instruction) bool {
+			c, ok := in.(ssa.CallInstruction)
+			if !ok {
+				return false
+			}
+			o := core.Callee(c)
+			return o != nil && (o.Name() == "rangeIterator" || o.Name() == "RangeIterator" || o.Name() == "ReadOnlyRangeIterator")
+		}
+		ok := true
+		var at token.Pos
+		for _, ret := range core.Returns(fn) {
+			if !core.MustPass(ret, isRange) {
+				ok, at = false, ret.Pos()
+			}
+		}
+		r.Check(ok, "R2.slicebounds", "interpreter.(ArrayValue).Slice: bounds validated before every result", posOr(at, fn.Pos()), "every return passes the atree range iterator construction (upper-bound check)",
+			"a result is returned without creating the atree range iterator, the only check of the upper bound: e.g. xs.slice(from: n, upTo: n) with n beyond the length succeeds")
+	}
+	r.Floor("R2.slicebounds", 1)
+
+	// R3 copy fast path: atree's CopyNonRefSimple refuses multi-slab containers unless the container itself says it can be
+	// copied; the type-based fast path is therefore taken only within a single slab. Path-sensitively: with
+	// IsWithinSingleSlab() == false and CanCopyNonRefSimple() == false no CopyNonRefSimple call is reachable.
+	for _, tn := range []string{"ArrayValue", "DictionaryValue", "CompositeValue"} {
+		fn := mustFn(r, "R3.fastpath", "interpreter", tn, "Transfer")
+		if fn == nil {
+			continue
+		}
+		var as []core.Assumption
+		ncopy := 0
+		for _, c := range core.Calls(fn, false) {
+			o := core.Callee(c)
+			if o == nil || o.Pkg() == nil || o.Pkg().Path() != atreePath {
+				continue
+			}
+			if v, ok := c.(ssa.Value); ok && (o.Name() == "IsWithinSingleSlab" || o.Name() == "CanCopyNonRefSimple") {
+				as = append(as, core.Assumption{Var: core.BoolVar{Call: v}, Val: false})
+			}
+		}
+		isCopy := func(in ssa.Instruction) bool {
+			return core.CallReaches(in, func(cc ssa.CallInstruction) bool {
+				o := core.Callee(cc)
+				return o != nil && o.Pkg() != nil && o.Pkg().Path() == atreePath && o.Name() == "CopyNonRefSimple"
+			}, 1)
+		}
+		core.Instrs(fn, true, func(in ssa.Instruction) {
+			if c, ok := in.(ssa.CallInstruction); ok {
+				if o := core.Callee(c); o != nil && o.Pkg() != nil && o.Pkg().Path() == atreePath && o.Name() == "CopyNonRefSimple" {
+					ncopy++
+				}
+			}
+		})
+		if ncopy == 0 {
+			r.OK("R3.fastpath", "interpreter.("+tn+").Transfer: no simple-copy fast path", fn.Pos(), "the container is always copied element by element")
+			continue
+		}
+		hit := core.ReachUnder(fn, as, nil, nil, isCopy)
+		r.Check(hit == nil, "R3.fastpath", "interpreter.("+tn+").Transfer: simple copy only when atree allows it", posOr(instrPos(hit), fn.Pos()),
+			"with IsWithinSingleSlab() and CanCopyNonRefSimple() both false no CopyNonRefSimple call is reachable",
+			"atree's CopyNonRefSimple is reachable for a container that is neither within a single slab nor reported copyable by atree: every copy/move of a large container of primitive elements fails with an external error")
+	}
+	r.Floor("R3.fastpath", 3)
+}
+
+func instrPos(in ssa.Instruction) token.Pos {
+	if in == nil {
+		return token.NoPos
+	}
+	return in.Pos()
 }
 
 func c40(r *core.Run) {
